@@ -1,7 +1,7 @@
 (* Props/C11.v — property C11: Normalize reorders any contract-abiding stream losslessly into sequential order. *)
 From CV Require Import Proofs.SchedP5.
 From CV Require Import Model.Base Model.Events Model.Contract Model.Normalize Proofs.BaseP Proofs.NormalizeP Proofs.NormalizeP2
-  Proofs.NormalizeP3 Proofs.NormalizeP5.
+  Proofs.NormalizeP3 Proofs.NormalizeP5 Proofs.NormalizeP6.
 From CV Require Proofs.Compose.
 From Coq Require Import Permutation.
 
@@ -107,3 +107,11 @@ Example C11_sequential_nonvacuous :
              (13, EvFeatF 1); (14, EvFeatS 2); (15, EvFeatF 2); (16, EvFinished)] in
   normalized (map snd es) = true.
 Proof. vm_compute. reflexivity. Qed.
+
+(* HEAD-LIVENESS: events of the entity currently at the head of the output are forwarded without waiting for it to
+   finish — after every call, everything that can be forwarded has been: flushing the queues again yields nothing *)
+Theorem C11_nothing_forwardable_is_held_back :
+  forall s e, nwf s = true -> resting s = true -> accepts s (snd e) = true -> is_emitted (ns_state s) = false ->
+    fst (emit_feats (ns_feats (fst (nhandle s e)))) = [].
+Proof. exact nothing_forwardable_is_held_back. Qed.
+Print Assumptions C11_nothing_forwardable_is_held_back.
